@@ -353,6 +353,11 @@ def catalogue(g):
     add("method.embedded-alias", ["LCtx"] if False else ["context.Context"])
     add("method.empty-interface", [])
     add("method.many", ["M%d(a%d int) (int, error)" % (i, i) for i in range(32)])
+    # more variables than any small pre-sized buffer: unnamed parameters of repeated types (renamed in the collision pass), and a parameter
+    # named like a qualifier that a *later* parameter of the same method brings in
+    add("method.ten-unnamed-params", ["M(int, int, string, string, int, string, bool, bool, int, string) (int, string, error)",
+                                      "N(context.Context, string, string, int, int, []byte, []byte, error, error, float64, float64) error"])
+    add("method.qualifier-param-before-late-import", ["R(http string, a int, b int, c string, d string, e bool, f bool, g []int, h []int, req *http.Request) (io int, r io.Reader)"])
     add("method.name-String-Error", ["String() string", "Error() string"])
     add("method.name-lowercase-exported-mix", ["Exported()", "unexported(x int) string"] if g.allow_unexported else ["Exported()", "AlsoExported(x int) string"])
     # ---- identifiers
